@@ -962,7 +962,14 @@ def check_scopes(repo, res, rule_entry, rule_methods):
     def module_level_global_is_a_no_op():
         # global x / x = 1 / print(x)  at module level: legal, and x is the module's x
         top, tf, gx, gy = build()
-        top.attrs['globals'].add('x')
+        # the declaration as supp's own visit_Global records it when the current scope is the module
+        from .absint import SymNode as _SN
+        vcls = m.facts.classes.get('extract_visitor')
+        vg = vcls.lookup('visit_Global') if vcls is not None else None
+        if vg is None:
+            raise AnalysisError('extract_visitor.visit_Global vanished')
+        vis = Obj(vcls, {'top': top, 'flow': tf}, 'visitor at module level')
+        m.it.call(FuncVal(vg.rel, vg.node, None, vis, vg.cls), [_SN('Global', 'node', 'stmt', {'names': ['x']})], {})
         try:
             x = m.describe(m.lookup(m.names_at(tf, (9, 0)), 'x'))
             y = m.describe(m.lookup(m.names_at(tf, (9, 0)), 'y'))
